@@ -24,6 +24,7 @@ func main() {
 	manifest := flag.Bool("manifest", false, "print MANIFEST.json generated from the rule registry")
 	overlayFile := flag.String("overlay", "", "JSON file {repo-relative file: replacement file path} applied as a go/packages overlay (used by the sensitivity corpus)")
 	mutantsOnly := flag.Bool("mutants", false, "run only the sensitivity corpus of the property (no verdict on the tree)")
+	neutralOnly := flag.Bool("neutral", false, "run only the specificity corpus (/verif/neutral refactorings) for the property")
 	probeOpt := flag.Bool("probe-optional", false, "exploration aid: list unguarded dereferences of optional API pointer fields")
 	flag.Parse()
 	if *probeOpt {
@@ -49,6 +50,17 @@ func main() {
 	if !ok {
 		fmt.Fprintf(os.Stderr, "unknown property %q\n", *prop)
 		os.Exit(2)
+	}
+	if *neutralOnly {
+		res := runNeutral(*prop, *repo, *out)
+		fmt.Printf("neutral: applied=%d silent=%d skipped=%d false-alarms=%d\n", res.Applied, res.Silent, res.Skipped, len(res.Alarms))
+		for _, d := range append(res.Detail, res.Alarms...) {
+			fmt.Println(" ", d)
+		}
+		if len(res.Alarms) > 0 {
+			os.Exit(2)
+		}
+		return
 	}
 	if *mutantsOnly {
 		res := runMutants(*prop, *repo, *out)
@@ -99,8 +111,17 @@ func main() {
 	if *tier == "thorough" && *overlayFile == "" {
 		res := runMutants(*prop, *repo, *out)
 		c.Extra["mutants"] = res
+		neu := runNeutral(*prop, *repo, *out)
+		c.Extra["neutral_refactorings"] = neu
 		code := c.Finish(pr.Explanation, pr.NotDecided, pr.Assumptions)
 		fmt.Printf("sensitivity corpus: applied=%d killed=%d skipped=%d blind=%d\n", res.Applied, res.Killed, res.Skipped, len(res.Blind))
+		fmt.Printf("specificity corpus (behaviour-preserving refactorings): applied=%d silent=%d skipped=%d false-alarms=%d\n", neu.Applied, neu.Silent, neu.Skipped, len(neu.Alarms))
+		if len(neu.Alarms) > 0 && code == 0 {
+			for _, b := range neu.Alarms {
+				fmt.Printf("CHECKER-FALSE-ALARM %s\n", b)
+			}
+			os.Exit(2)
+		}
 		if len(res.Blind) > 0 && code == 0 {
 			for _, b := range res.Blind {
 				fmt.Printf("CHECKER-BLIND %s\n", b)
